@@ -70,6 +70,7 @@ func (l *lookup) shadow(key string) {
 func (l *lookup) unshadow(key string) {
 	if n, ok := l.keyToIndex["~"+key]; ok {
 		l.keyToIndex[key] = n
+		delete(l.keyToIndex, "~"+key)
 		l.unshadow("~" + key)
 	}
 }
